@@ -96,5 +96,9 @@ func (i instruction) String() string {
 		}
 	}
 
+	if i.instrType.uimm {
+		as = append(as, fmt.Sprintf("%d", rs1.regNum(i.value)))
+	}
+
 	return fmt.Sprintf("%s %s", i.instrType.name, strings.Join(as, ", "))
 }
